@@ -57,9 +57,67 @@ class Scratch:
         return False
 
 
-def run_case(engine_name, case, limit=120):
-    """Execute one case with a watchdog. Never raises: harness problems are
-    reported in the result as `harness_error`."""
+def run_case(engine_name, case, limit=120, hermetic=True):
+    """Execute one case, by default in a forked child of this process (hermetic: whatever
+    module-level state the code under test mutates dies with the child, so the
+    result of a case never depends on which cases ran before it in the same
+    worker, and a replay in a fresh interpreter sees the same thing).  Never
+    raises: harness problems are reported in the result as `harness_error`."""
+    import pickle
+    import select
+
+    # Batches run in-process (a fork of an interpreter with numpy/scipy/numba loaded
+    # costs ~0.1-2 s); everything the driver re-runs on its own - focus, shrinking,
+    # regression replays, --replay - runs hermetically.
+    if not hermetic or os.environ.get("EKOSIM_NO_FORK"):
+        return _run_case_inproc(engine_name, case, limit)
+    t0 = REAL_PERF()
+    r, w = os.pipe()
+    pid = os.fork()
+    if pid == 0:
+        try:
+            os.close(r)
+            try:
+                res = _run_case_inproc(engine_name, case, limit)
+                data = pickle.dumps(res)
+            except BaseException as e:  # noqa
+                data = pickle.dumps({"harness_error": f"child: {type(e).__name__}: {e}\n{traceback.format_exc()}", "violations": []})
+            with os.fdopen(w, "wb") as f:
+                f.write(data)
+        finally:
+            os._exit(0)
+    os.close(w)
+    chunks = []
+    deadline = t0 + limit + 60
+    killed = False
+    with os.fdopen(r, "rb") as f:
+        while True:
+            left = deadline - REAL_PERF()
+            if left <= 0:
+                os.kill(pid, signal.SIGKILL)
+                killed = True
+                break
+            ready, _, _ = select.select([f], [], [], min(left, 5.0))
+            if ready:
+                b = f.read1(1 << 20) if hasattr(f, "read1") else f.read(1 << 20)
+                if not b:
+                    break
+                chunks.append(b)
+    _, status = os.waitpid(pid, 0)
+    if killed:
+        res = {"harness_error": "HarnessTimeout: simulated run killed by the parent watchdog", "violations": []}
+    else:
+        try:
+            res = pickle.loads(b"".join(chunks))
+        except Exception as e:
+            res = {"harness_error": f"simulation child died (wait status {status}): {e!r}", "violations": []}
+    res.setdefault("violations", [])
+    res["wall"] = REAL_PERF() - t0
+    return res
+
+
+def _run_case_inproc(engine_name, case, limit=120):
+    """Execute one case with a watchdog, in this process."""
     mod = engine_module(engine_name)
     t0 = REAL_PERF()
     old = signal.signal(signal.SIGALRM, _alarm)
@@ -112,7 +170,7 @@ def _run_seed(args):
             "harness_error": f"generate: {type(e).__name__}: {e}\n{traceback.format_exc()}",
             "violations": [],
         }
-    res = run_case(engine_name, case, limit=opts.get("limit", 120))
+    res = run_case(engine_name, case, limit=opts.get("limit", 120), hermetic=bool(os.environ.get("EKOSIM_FORK")))
     res["seed"] = seed
     if res["violations"] or res.get("harness_error") or opts.get("keep_case"):
         res["case"] = case
